@@ -278,64 +278,96 @@ Theorem C20_reject_D_k_mismatch t m j :
 Proof. exact (reject_D_k_mismatch t m j). Qed.
 Print Assumptions C20_reject_D_k_mismatch.
 
-(* every mismatching dimension, of the tensor and of the shift argument *)
-Theorem C20_reject_D_apply_dims m kk kd :
-  m <> kd -> D_apply_ok (Some m) kk kd = Reject ValueError.
-Proof. exact (reject_D_apply_dims m kk kd). Qed.
+(* a tensor of lower dimension than the state's wavenumbers: refused, whatever the shift argument *)
+Theorem C20_reject_D_apply_dims m kk s :
+  (m < Nat.min s 3)%nat -> D_apply_ok (Some m) kk s = Reject ValueError.
+Proof. exact (reject_D_apply_dims m kk s). Qed.
 Print Assumptions C20_reject_D_apply_dims.
 
-Theorem C20_reject_D_apply_k_dims m j kd :
-  j <> kd -> D_apply_ok m (Some j) kd = Reject ValueError.
-Proof. exact (reject_D_apply_k_dims m j kd). Qed.
+(* a shift argument of lower dimension than the state's wavenumbers: refused, whatever the tensor *)
+Theorem C20_reject_D_apply_k_dims m j s :
+  (j < Nat.min s 3)%nat -> D_apply_ok m (Some j) s = Reject ValueError.
+Proof. exact (reject_D_apply_k_dims m j s). Qed.
 Print Assumptions C20_reject_D_apply_k_dims.
 
-Theorem C20_accept_D_apply_matching kd :
-  D_apply_ok (Some kd) (Some kd) kd = Accept /\ D_apply_ok (Some kd) None kd = Accept /\
-  D_apply_ok None (Some kd) kd = Accept /\ D_apply_ok None None kd = Accept.
-Proof. exact (accept_D_apply_matching kd). Qed.
+(* more than 3 components can never match sm.k *)
+Theorem C20_reject_D_apply_above_3 m kk s : (3 < m)%nat -> D_apply_ok (Some m) kk s = Reject ValueError.
+Proof. exact (reject_D_apply_above_3 m kk s). Qed.
+Print Assumptions C20_reject_D_apply_above_3.
+
+(* tensor and shift argument of different dimensions (also refused by the constructor) *)
+Theorem C20_reject_D_apply_D_k_differ m j s : m <> j -> D_apply_ok (Some m) (Some j) s = Reject ValueError.
+Proof. exact (reject_D_apply_D_k_differ m j s). Qed.
+Print Assumptions C20_reject_D_apply_D_k_differ.
+
+(* a higher-dimensional argument (up to 3) upgrades the state's coordinates and is accepted *)
+Theorem C20_accept_D_apply_higher_upgrades m s :
+  (s <= m)%nat -> (1 <= m <= 3)%nat ->
+  D_apply_ok (Some m) None s = Accept /\ D_apply_ok None (Some m) s = Accept /\
+  D_apply_ok (Some m) (Some m) s = Accept.
+Proof. exact (accept_D_apply_higher_upgrades m s). Qed.
+Print Assumptions C20_accept_D_apply_higher_upgrades.
+
+Theorem C20_accept_D_apply_matching s :
+  (1 <= s)%nat -> D_apply_ok None None s = Accept /\ D_apply_ok (Some (Nat.min s 3)) None s = Accept.
+Proof. exact (accept_D_apply_matching s). Qed.
 Print Assumptions C20_accept_D_apply_matching.
 
-Theorem C20_D_apply_accept_iff m kk kd :
-  D_apply_ok m kk kd = Accept <-> (forall j, m = Some j -> j = kd) /\ (forall j, kk = Some j -> j = kd).
-Proof. exact (D_apply_accept_iff m kk kd). Qed.
+Theorem C20_D_apply_accept_iff m kk s :
+  D_apply_ok m kk s = Accept <->
+  (forall j, m = Some j -> j = D_kdim m kk s) /\ (forall j, kk = Some j -> j = D_kdim m kk s).
+Proof. exact (D_apply_accept_iff m kk s). Qed.
 Print Assumptions C20_D_apply_accept_iff.
 
 (* an unknown parameter name at any position of order1=[...] *)
-Theorem C20_reject_unknown_parameter_list q params params2 pre x post a2 :
+Theorem C20_reject_unknown_parameter_list params params2 pre x post a2 :
   smem x params = false ->
-  parse_partials_ok q params params2 (O1List (pre ++ x :: post)) a2 = Reject ValueError.
-Proof. exact (reject_unknown_parameter_list q params params2 pre x post a2). Qed.
+  parse_partials_ok params params2 (O1List (pre ++ x :: post)) a2 = Reject ValueError.
+Proof. exact (reject_unknown_parameter_list params params2 pre x post a2). Qed.
 Print Assumptions C20_reject_unknown_parameter_list.
 
-Theorem C20_reject_unknown_parameter_str q params params2 x a2 :
-  smem x params = false -> parse_partials_ok q params params2 (O1Str x) a2 = Reject ValueError.
-Proof. exact (reject_unknown_parameter_str q params params2 x a2). Qed.
+Theorem C20_reject_unknown_parameter_str params params2 x a2 :
+  smem x params = false -> parse_partials_ok params params2 (O1Str x) a2 = Reject ValueError.
+Proof. exact (reject_unknown_parameter_str params params2 x a2). Qed.
 Print Assumptions C20_reject_unknown_parameter_str.
 
 (* an alias {variable: unknown parameter} at any position *)
-Theorem C20_reject_unknown_parameter_alias q params params2 pre v x post a2 :
+Theorem C20_reject_unknown_parameter_alias params params2 pre v x post a2 :
   smem x params = false ->
-  parse_partials_ok q params params2 (O1Alias (pre ++ (v, x) :: post)) a2 = Reject ValueError.
-Proof. exact (reject_unknown_parameter_alias q params params2 pre v x post a2). Qed.
+  parse_partials_ok params params2 (O1Alias (pre ++ (v, x) :: post)) a2 = Reject ValueError.
+Proof. exact (reject_unknown_parameter_alias params params2 pre v x post a2). Qed.
 Print Assumptions C20_reject_unknown_parameter_alias.
 
 (* coefficient form {variable: {parameter: c}}: unknown parameter in any variable's map *)
-Theorem C20_reject_unknown_parameter_coef q params params2 pre v ps post x a2 :
+Theorem C20_reject_unknown_parameter_coef params params2 pre v ps post x a2 :
   In x ps -> smem x params = false ->
-  parse_partials_ok q params params2 (O1Coef (pre ++ (v, ps) :: post)) a2 = Reject ValueError.
-Proof. exact (reject_unknown_parameter_coef q params params2 pre v ps post x a2). Qed.
+  parse_partials_ok params params2 (O1Coef (pre ++ (v, ps) :: post)) a2 = Reject ValueError.
+Proof. exact (reject_unknown_parameter_coef params params2 pre v ps post x a2). Qed.
 Print Assumptions C20_reject_unknown_parameter_coef.
 
 (* order1=True and a pair of two unknown names at any position of order2=[pairs] *)
-Theorem C20_reject_unknown_pair q p0 params params2 pre a b post :
+Theorem C20_reject_unknown_pair p0 params params2 pre a b post :
   smem a (p0 :: params) = false -> smem b (p0 :: params) = false ->
-  parse_partials_ok q (p0 :: params) params2 O1True (O2Pairs (pre ++ (a, b) :: post)) = Reject ValueError.
-Proof. exact (reject_unknown_pair q p0 params params2 pre a b post). Qed.
+  parse_partials_ok (p0 :: params) params2 O1True (O2Pairs (pre ++ (a, b) :: post)) = Reject ValueError.
+Proof. exact (reject_unknown_pair p0 params params2 pre a b post). Qed.
 Print Assumptions C20_reject_unknown_pair.
 
-Theorem C20_accept_known_parameters q p0 params params2 :
-  parse_partials_ok q (p0 :: params) params2 O1True O2False = Accept.
-Proof. exact (accept_known_parameters q p0 params params2). Qed.
+Theorem C20_accept_order2_name_list p0 params params2 l :
+  (forall x, In x l -> smem x (p0 :: params) = true) ->
+  parse_partials_ok (p0 :: params) params2 O1True (O2StrList l) = Accept.
+Proof. exact (accept_order2_name_list p0 params params2 l). Qed.
+Print Assumptions C20_accept_order2_name_list.
+
+(* ... and a name that is no order1 variable, at any position of that list, is refused *)
+Theorem C20_reject_unknown_name_in_order2_list p0 params params2 pre x post :
+  smem x (p0 :: params) = false ->
+  parse_partials_ok (p0 :: params) params2 O1True (O2StrList (pre ++ x :: post)) = Reject ValueError.
+Proof. exact (reject_unknown_name_in_order2_list p0 params params2 pre x post). Qed.
+Print Assumptions C20_reject_unknown_name_in_order2_list.
+
+Theorem C20_accept_known_parameters p0 params params2 :
+  parse_partials_ok (p0 :: params) params2 O1True O2False = Accept.
+Proof. exact (accept_known_parameters p0 params params2). Qed.
 Print Assumptions C20_accept_known_parameters.
 
 Theorem C20_reject_non_operator_item l fuel : has_nonop l -> simulate_ok fuel l = Reject ValueError.
